@@ -98,3 +98,23 @@ Definition align_judge (c : align_case) : nat :=
   (* bit 3: a box laid out inside an atomic box of the line is no longer inside it after the call *)
   let b3 := if negb (well_nested_b line) || well_nested_b line_impl then 0%nat else 8%nat in
   (b0 + b1 + b2 + b3)%nat.
+
+(* ------------------------------------------------- avoid_collisions on a line box stub between float stubs *)
+Require Import WV.model.C09Float.
+Definition avoid_case := (list (bool * Q * Q * Q * Q) * Q * Q * bool * Q * Q * Q * (Q * Q * Q))%type.
+Definition shape_of (p : bool * Q * Q * Q * Q) : shape :=
+  let '(lf, x, y, mw, mh) := p in {| s_left := lf; s_x := x; s_y := y; s_mw := mw; s_mh := mh |}.
+(* bit 0: model differs from the implementation; bit 1: (positive heights) the returned interval is not the one
+   left by the floats sharing vertical extent with the box at the returned position; bit 2: moved upwards *)
+Definition avoid_judge (c : avoid_case) : nat :=
+  let '(sh, cbx, cbw, rtl, bw, bh, y, (xi, yi, avi)) := c in
+  let shapes := map shape_of sh in
+  let b0 := match avoid (S (List.length shapes)) shapes cbx cbw rtl bw bh y with
+            | Placed x y' av => if Qeq_bool x xi && Qeq_bool y' yi && Qeq_bool av avi then 0%nat else 1%nat
+            | NoFuel => 1%nat
+            end in
+  let pos := Qlt_bool 0 bh && forallb (fun s => Qlt_bool 0 (s_mh s)) shapes in
+  let '(l, r) := spec_interval shapes cbx cbw yi bh in
+  let b1 := if negb pos || (Qeq_bool avi (r - l) && Qeq_bool xi (if rtl then r else l)) then 0%nat else 2%nat in
+  let b2 := if Qle_bool y yi then 0%nat else 4%nat in
+  (b0 + b1 + b2)%nat.
